@@ -13,7 +13,7 @@ RULE = ('case = (specifier, hash, cipher/key size, coded count, passphrase class
         'of len(salt+passphrase), or empty/long/non-ASCII passphrase; distinct = distinct case descriptors')
 ASSUMPTIONS = ['hashlib digests are correct', 'vf.ref.sym.s2k follows RFC 4880 3.7.1 (cross-checked against gpg symmetric encryption when gpg is available)']
 MIN_COUNTERS = {'derive_compared': 300, 'multi_context': 50, 'count_values': 200, 'count_boundary_window': 300}
-BUDGET = {'quick': (150, 600), 'thorough': (1500, 3600)}
+BUDGET = {'quick': (600, 1500), 'thorough': (1500, 3600)}
 
 HASHES = [1, 2, 3, 8, 9, 10, 11]
 CIPHERS = [3, 2, 9, 8, 7]   # 128, 192, 256, 192, 128 bit keys
